@@ -320,12 +320,14 @@ func c04EndRequest(r *core.Run, fi *core.FuncInfo) {
 		Contradict: [][2]flow.Tag{{"terminated", "ok:bferr"}},
 		Classify: func(pkg *packages.Package, call *ast.CallExpr, callee *types.Func) []flow.Tag {
 			switch {
+			// what Err() answered holds for the moment it was asked only: any later step that takes time
+			// (a request, a wait, the next look at Ongoing) forgets it
 			case isSendSync(callee):
-				return []flow.Tag{"send"}
+				return []flow.Tag{"send", "-ok:bferr", "-fail:bferr"}
 			case core.IsMethod(callee, pBackoff, "Backoff", "Ongoing"):
-				return []flow.Tag{"ongoing"}
+				return []flow.Tag{"ongoing", "-ok:bferr", "-fail:bferr"}
 			case core.IsMethod(callee, pBackoff, "Backoff", "Wait"):
-				return []flow.Tag{"wait"}
+				return []flow.Tag{"wait", "-ok:bferr", "-fail:bferr"}
 			case core.IsMethod(callee, pBackoff, "Backoff", "Err"):
 				return []flow.Tag{"bferr"}
 			case isWrap(callee):
